@@ -31,7 +31,7 @@ def check(ctx: Ctx):
     col.check_neighbor(ctx)
     col.check_from_random(ctx)
     ctx.expect("EFFECT", 1)
-    ctx.expect("PAIR", 2)
+    ctx.expect("PAIR", 1)
     ctx.expect("GUARDSHAPE", 4)
     ctx.expect("METRIC", 4)
     ctx.expect("SYMM", 1)
